@@ -9,37 +9,57 @@ use crate::rng::{mix, Rng};
 use crate::util::*;
 use geodesy::authoring::*;
 
-/// Definitions that are not single catalogue instances: (text, elementary?)
-const EXTRA: [(&str, bool); 16] = [
-    ("gridshift grids=test.datum", true),
-    ("gridshift grids=test.geoid", true),
-    ("gridshift grids=5458_with_subgrid.gsb", true),
-    ("gridshift grids=test_subset.datum,test.datum,@null", true),
-    ("deformation grids=test.deformation t_epoch=2000", true),
-    ("deformation grids=test.deformation dt=10 inv", true),
-    ("deflection grids=test.geoid", true),
-    ("curvature mean", true),
-    ("curvature azimuthal ellps=intl", true),
-    ("gravity grs80", true),
-    ("geodesic", true),
-    ("geodesic inv", true),
-    ("stack push=1,2 | addone | stack swap | stack pop=1,2", false),
-    ("push v_1 v_3 | helmert x=1 s=10 | pop v_3 v_1", false),
-    ("geo:in | utm zone=32 | stack push=2 | addone | stack pop=1 | neu:out", false),
-    ("stack push=1,2,3 | stack roll=3,1 | stack flip=2 | stack pop=3,2,1 | cart | helmert x=10 rx=1 convention=position_vector t_epoch=2000 dx=0.1 | cart inv", false),
+/// Definitions that are not single catalogue instances: (text, elementary?, input domain).
+/// Domains: "geo" = radians over (and a little beyond) the coverage of the shipped test grids,
+/// "cart" = the same places as cartesian coordinates, "deg" = the same in degrees, latitude first,
+/// "any" = anything
+const EXTRA: [(&str, bool, &str); 19] = [
+    ("gridshift grids=test.datum", true, "geo"),
+    ("gridshift grids=test.geoid", true, "geo"),
+    ("gridshift grids=5458_with_subgrid.gsb", true, "geo"),
+    ("gridshift grids=test_subset.datum,test.datum,@null", true, "geo"),
+    ("deformation grids=test.deformation t_epoch=2000", true, "cart"),
+    ("deformation grids=test.deformation dt=10 inv", true, "cart"),
+    ("deformation grids=another_test.deformation,test.deformation t_epoch=2010.5 raw", true, "cart"),
+    ("deflection grids=test.geoid", true, "deg"),
+    ("curvature mean", true, "any"),
+    ("curvature azimuthal ellps=intl", true, "any"),
+    ("gravity grs80", true, "any"),
+    ("geodesic", true, "any"),
+    ("geodesic inv", true, "any"),
+    ("stack push=1,2 | addone | stack swap | stack pop=1,2", false, "any"),
+    ("push v_1 v_3 | helmert x=1 s=10 | pop v_3 v_1", false, "any"),
+    ("geo:in | utm zone=32 | stack push=2 | addone | stack pop=1 | neu:out", false, "deg"),
+    ("stack push=1,2,3 | stack roll=3,1 | stack flip=2 | stack pop=3,2,1 | cart | helmert x=10 rx=1 convention=position_vector t_epoch=2000 dx=0.1 | cart inv", false, "geo"),
+    ("cart | deformation grids=test.deformation t_epoch=2000 | cart inv", false, "geo"),
+    ("stack push=3 | gridshift grids=test.datum | stack pop=3", false, "geo"),
 ];
 
-fn gen_set(rng: &mut Rng, inst: Option<&catalog::Inst>, len: usize, epochs: &[f64]) -> Vec<[f64; 4]> {
+fn gen_set(rng: &mut Rng, inst: Option<&catalog::Inst>, domain: &str, len: usize, epochs: &[f64]) -> Vec<[f64; 4]> {
     let mut v: Vec<[f64; 4]> = Vec::with_capacity(len);
     for i in 0..len {
         let mut p = match inst {
             Some(inst) => inst.sample(rng),
-            None => [
+            None if domain == "any" => [
                 rng.range(-3.0, 3.0),
                 rng.range(-1.5, 1.5),
                 rng.range(-100.0, 1000.0),
                 2000.0,
             ],
+            None => {
+                // mostly inside the coverage of the test grids (54-58 N, 8-16 E), some in the
+                // margin, some outside
+                let (lat, lon) = (rng.range(53.3, 58.7), rng.range(7.3, 16.7));
+                let hgt = rng.range(0.0, 500.0);
+                match domain {
+                    "deg" => [lat, lon, hgt, 2000.0],
+                    "cart" => {
+                        let c = Ellipsoid::default().cartesian(&Coor4D([lon.to_radians(), lat.to_radians(), hgt, 0.0]));
+                        [c[0], c[1], c[2], 2000.0]
+                    }
+                    _ => [lon.to_radians(), lat.to_radians(), hgt, 2000.0],
+                }
+            }
         };
         if !epochs.is_empty() {
             p[3] = *rng.pick(epochs);
@@ -71,6 +91,7 @@ pub fn run(h: &H) {
         let mut rng = h.rng(idx);
         // choose the operator
         let kind = idx % 4;
+        let mut domain = "any";
         let (def, inst, elementary, epochs): (String, Option<catalog::Inst>, bool, Vec<f64>) = match kind {
             0 | 1 => {
                 let name = crate::props::c01::NAMES[rng.below(crate::props::c01::NAMES.len())];
@@ -95,20 +116,22 @@ pub fn run(h: &H) {
                 (spec.def(), inst, true, e)
             }
             _ => {
-                let (d, el) = *rng.pick(&EXTRA);
+                let (d, el, dom) = *rng.pick(&EXTRA);
                 let e = if d.contains("t_epoch") {
-                    vec![2000.0, 2010.5, 1995.25, f64::NAN]
+                    vec![2000.0, 2010.5, 1995.25, 2031.0, f64::NAN]
                 } else {
                     vec![]
                 };
+                domain = dom;
                 (d.to_string(), None, el, e)
             }
         };
-        h.guard(idx, &def, || one(h, idx, &def, inst.as_ref(), elementary, &epochs, &mut rng));
+        h.guard(idx, &def, || one(h, idx, &def, inst.as_ref(), domain, elementary, &epochs, &mut rng));
     }
 }
 
-fn one(h: &H, idx: u64, def: &str, inst: Option<&catalog::Inst>, elementary: bool, epochs: &[f64], rng: &mut Rng) {
+#[allow(clippy::too_many_arguments)]
+fn one(h: &H, idx: u64, def: &str, inst: Option<&catalog::Inst>, domain: &str, elementary: bool, epochs: &[f64], rng: &mut Rng) {
     let mut ctx = Plain::new();
     let op = match ctx.op(def) {
         Ok(op) => op,
@@ -119,7 +142,7 @@ fn one(h: &H, idx: u64, def: &str, inst: Option<&catalog::Inst>, elementary: boo
     };
     let name = def.split_whitespace().next().unwrap_or("");
     let len = *rng.pick(&[0usize, 1, 2, 3, 17, 17, 40, if h.quick() { 300 } else { 2000 }]);
-    let set = gen_set(rng, inst, len, epochs);
+    let set = gen_set(rng, inst, domain, len, epochs);
     h.distinct(mix(hash_str(def), set.iter().fold(len as u64, |a, p| mix(a, hash_f64s(p)))));
     if h.want_sample() && idx % 37 == 0 {
         h.sample(J::obj().set("definition", def).set("set_length", len).set("first", if len > 0 { J::coords(&set[0]) } else { J::Null }));
@@ -130,7 +153,7 @@ fn one(h: &H, idx: u64, def: &str, inst: Option<&catalog::Inst>, elementary: boo
         if rng.chance(0.5) {
             for _ in 0..rng.below(6) {
                 let hl = rng.below(5);
-                let mut other = to_c4(&gen_set(rng, inst, hl, epochs));
+                let mut other = to_c4(&gen_set(rng, inst, domain, hl, epochs));
                 let hd = if rng.chance(0.5) { D::F } else { D::I };
                 apply_set(&ctx, op, hd, &mut other);
             }
@@ -344,4 +367,46 @@ fn containers(h: &H, idx: u64, ctx: &Plain, op: OpHandle, d: D, def: &str, name:
     check!("(Vec<Coor3D>, t)", (v3.clone(), tfix), (v3.clone(), tfix));
     check!("(Vec<Coor2D>, h, t)", (v2.clone(), hfix, tfix), (v2.clone(), hfix, tfix));
     check!("(Vec<Coor32>, h, t)", (v32.clone(), hfix, tfix), (v32.clone(), hfix, tfix));
+
+    // the adapters against their definition (not against what they present themselves): the
+    // stored dimensions must come out as for the 4D tuple (stored..., fixed height, fixed epoch)
+    macro_rules! by_definition {
+        ($label:expr, $cont:expr, $defs:expr, $stored:expr, $f32:expr) => {{
+            let mut cont = $cont;
+            let mut four: Vec<Coor4D> = $defs;
+            let _ = ctx.apply(op, d.dir(), &mut four);
+            let _ = ctx.apply(op, d.dir(), &mut cont);
+            for i in 0..cont.len() {
+                let a = cont.get_coord(i).0;
+                let ok = (0..$stored).all(|k| {
+                    let want = if $f32 { (four[i][k] as f32) as f64 } else { four[i][k] };
+                    canon(a[k]) == canon(want)
+                });
+                if !ok {
+                    h.violation(
+                        idx,
+                        &format!("C02/container-by-definition/{}/{name}/{}", $label, d.name()),
+                        J::obj()
+                            .set("definition", def)
+                            .set("container", $label)
+                            .set("position", i)
+                            .set("fixed_height_and_epoch", J::coords(&[hfix, tfix]))
+                            .set("through_container", J::bits(&a))
+                            .set("through_4d_tuple", J::bits(&four[i].0)),
+                    );
+                    break;
+                }
+            }
+            h.class(&format!("container-by-definition/{}", $label));
+        }};
+    }
+    by_definition!("(Vec<Coor3D>, t)", (v3.clone(), tfix), set.iter().map(|p| Coor4D([p[0], p[1], p[2], tfix])).collect(), 3, false);
+    by_definition!("(Vec<Coor2D>, h, t)", (v2.clone(), hfix, tfix), set.iter().map(|p| Coor4D([p[0], p[1], hfix, tfix])).collect(), 2, false);
+    by_definition!(
+        "(Vec<Coor32>, h, t)",
+        (v32.clone(), hfix, tfix),
+        set.iter().map(|p| Coor4D([(p[0] as f32) as f64, (p[1] as f32) as f64, hfix, tfix])).collect(),
+        2,
+        true
+    );
 }
